@@ -27,6 +27,10 @@ TECHNIQUE = "static analysis: registry agreement + typed-HIR tables + must-pass-
 def run(ctx, fb, cfg):
     lib = fb.lib
     R = "C16."
+    # is_number / get_number / is_var ... mean what the propagator tables assume
+    import termkinds
+
+    termkinds.check_term_kinds(ctx, lib, R + "K5.term-kinds")
     fdrules.check_registry(ctx, lib, R + "K11.registry")
     fdrules.check_domfd(ctx, lib, R + "K2K3.domain-plumbing")
     for mod in ("plusfd", "minusfd", "timesfd"):
